@@ -15,13 +15,15 @@ mro full H SUB EXT OWN DOC  ->  per class 1..n-1 not in EXT:
                             <_mro>:<number of 'mro' reports>:<find('m') owner or ->:<doc source, - (none) or x (class has no m)>
 mro pyfull H SUB EXT OWN DOC ->  per class 1..n-1: <__mro__ or reject>:<lookup owner or ->:<doc source, - (none) or x (class has no m)>:<inspect.getdoc source>
 ```
-mro uses H SUB EXT STD CONT FUNC HID ORDER -> per class not in EXT, fields joined by `:`:
+mro uses H SUB EXT STD CONT FUNC HID ORDER PH -> per class not in EXT, fields joined by `:`:
                             mro(False,True) : mro(True,False) : mro(False,False) : mro(True) while _mro is None :
                             mro(include_self=False) while _mro is None : is_exception : _find_dunder_constructor
                             (owner.name, names 0=m 1=__new__ 2=__init__) : overrides(m) : overriding_subclasses(m) :
                             inherited_members (owner.name,…).  STD = external ids named in _STD_LIB_EXCEPTIONS, CONT/FUNC =
-                            per class names in contents / names that are Functions, HID = hidden classes, ORDER = the
+                            per class names in contents / names that are Functions, HID = hidden classes, PH = classes whose member 0 is a hidden phantom
+                            Attribute made from a docstring `@type` field (in CONT, not visible), ORDER = the
                             order in which defaultPostProcess visits the classes
+mro earlyfind H EXT OWN -> per class not in EXT: <owner Class.find gives during the visit (_mro is None)>:<owner after post-processing>
 mro second SC RAW INIT EXP RES TRIG -> `_finalbaseobjects` per class (N = not set; 0 = None, k+1 = class k) after
                             `_init_mro` ran for the classes TRIG: SC scope per class, RAW base names per class,
                             INIT `_initialbaseobjects` (0 = None), EXP what `_initialbases` denote (0 = no class), RES triples scope,name,class
@@ -93,10 +95,10 @@ def handle (args : List String) : String :=
           ++ ":" ++ (if owns c 0 then showOpt (PyMro.docSource bases owns hasDoc c 0) else "x")
           ++ ":" ++ (if owns c 0 then showOpt (PyMro.inspectGetdoc bases owns hasDoc c 0) else "x"))
     | _, _, _, _, _ => "bad-op"
-  | ["uses", h, sb, e, st, ct, fn, hd, od] =>
+  | ["uses", h, sb, e, st, ct, fn, hd, od, ph] =>
     match parseLists h, parseLists sb, Proto.natList e, Proto.natList st, parseLists ct, parseLists fn,
-        Proto.natList hd, Proto.natList od with
-    | some hs, some sbs, some es, some sts, some cts, some fns, some hds, some ods =>
+        Proto.natList hd, Proto.natList od, Proto.natList ph with
+    | some hs, some sbs, some es, some sts, some cts, some fns, some hds, some ods, some phs =>
       let ext := fun c => es.contains c
       let std := fun c => sts.contains c
       let bases := fun c => localBases ext (rawOf hs sbs c)
@@ -105,7 +107,7 @@ def handle (args : List String) : String :=
       let owns := fun c n => (contents c).contains n
       let isFunc := fun c n => (fns.getD c []).contains n
       let visC := fun c => !hds.contains c
-      let visM := fun c (_ : Nat) => !hds.contains c
+      let visM := fun c (n : Nat) => !hds.contains c && !(n == 0 && phs.contains c)
       let pair := fun (p : Nat × Nat) => toString p.1 ++ "." ++ toString p.2
       let pairs := fun (l : List (Nat × Nat)) => if l.isEmpty then "-" else ",".intercalate (l.map pair)
       "|".intercalate (((classesOf hs).filter (fun c => !ext c)).map fun c =>
@@ -120,7 +122,15 @@ def handle (args : List String) : String :=
           showOpt (overrides bases ext owns c 0),
           Proto.showNatList (overridingSubclasses rawIds ods owns visC c 0),
           pairs (inheritedMembers contents visM (classMro bases ext c))])
-    | _, _, _, _, _, _, _, _ => "bad-op"
+    | _, _, _, _, _, _, _, _, _ => "bad-op"
+  | ["earlyfind", h, e, o] =>
+    match parseLists h, Proto.natList e, Proto.natList o with
+    | some hs, some es, some os =>
+      let ext := fun c => es.contains c
+      let owns := fun c (_ : Nat) => os.contains c
+      "|".intercalate (((classesOf hs).filter (fun c => !ext c)).map fun c =>
+        showOpt (findEarly (basesOf hs) ext owns c 0) ++ ":" ++ showOpt (find (basesOf hs) ext owns c 0))
+    | _, _, _ => "bad-op"
   | ["second", sc, raw, ini, ex, res, trig] =>
     match Proto.natList sc, parseLists raw, parseLists ini, parseLists ex, parseLists res, Proto.natList trig with
     | some scs, some raws, some inis, some exs, some ress, some trigs =>
